@@ -143,6 +143,7 @@ fn replay(path: &str) -> i32 {
         let item = dec[k][ev.dir as usize & 1].feed(&ev.frame);
         println!("  step {:4} link {} {} {} {:?}", ev.step, ev.link, if ev.dir == 0 { "a>b" } else { "b>a" }, if k == 0 { "sent     " } else { "delivered" }, item);
     }
+    println!("divergence: {:?}", out.divergence);
     println!("live tasks at end: {:?}", out.live);
     println!("mux: {:?}", out.mux);
     println!("outcome: {}", verdict.outcome);
